@@ -17,25 +17,30 @@ PROPS = {
     ),
     'C04': dict(
         title='Control flow follows the program text',
-        verus=['exec_flow', 'exec_glue', 'visit_defaults'], kani=[],
+        verus=['exec_flow', 'exec_glue', 'visit_defaults', 'exec_entry'], kani=[],
         technique=V + ': block/if/while/until/break/continue/return of exec_stmt.rs against trace languages over a ghost '
                       'event trace with abstract callees (unbounded: all blocks, all iteration counts, failing callees); the statement dispatch the '
-                      'interpreter inherits (VisitProgram::visit_statement default: each of the 18 statement kinds goes to its own method)',
+                      'interpreter inherits (VisitProgram::visit_statement default: each of the 18 statement kinds goes to its own method); exec_using / exec: '
+                      'the run starts from one fresh scope over the caller\'s own streams and its result is returned unchanged',
     ),
     'C05': dict(
         title='Functions, scopes and pronouns',
-        verus=['env', 'sym_table', 'call', 'exec_flow', 'exec_glue'], kani=[],
+        verus=['env', 'sym_table', 'call', 'exec_flow', 'exec_glue', 'write_val', 'produce', 'sym_lower'], kani=[],
         technique=V + ': environment.rs scope stack / innermost-first lookup (read and write path, only the entry hit can change) / '
                       'creation in the innermost scope / pronoun referent against a Seq<Map> view; sym_table.rs: one map per kind of name, '
                       'case-folded key on every path (lookup, mutable lookup, insertion), kind errors, no overwrite; the call protocol of ProduceVal::visit_function_call (arity before arguments, arguments left to '
                       'right once each, by-value binding, fresh executor, pop, first return value), scope push/pop per loop '
-                      'iteration and branch in exec_stmt.rs',
+                      'iteration and branch in exec_stmt.rs; SymTable::for_function_call / Environment::push_function_scope (parameters bound in order in ONE fresh scope, '
+                      'a repeated name is an error); the write path WriteVal (a variable is looked up through the scopes first and created only if absent, a pronoun is the last access) and '
+                      'the read path ProduceVal::visit_pronoun / visit_variable_name over a ghost trace; the three ToLowercase impls (every part of a name case-folded, nothing else changed)',
     ),
     'C06': dict(
         title='Arrays are independent values with queue and dictionary behaviour',
-        verus=['val_arrays', 'produce', 'val_ops', 'exec_glue'], kani=['c06_'],
+        verus=['val_arrays', 'produce', 'val_ops', 'exec_glue', 'write_val'], kani=['c06_'],
         technique=V + ': val.rs array/queue/dictionary functions against the mathematical content (Seq / Map view), '
-                      'auto-extension, key kinds, &mut frame conditions (Rc::make_mut contract)',
+                      'auto-extension, key kinds, &mut frame conditions (Rc::make_mut contract); the indexed write path WriteVal::visit_array_subscript against a trace protocol '
+                      '(subscripts evaluated outermost first, each handed to index_or_insert exactly as evaluated — an array key is refused there —, innermost applied first, writer once on the innermost place, first error wins), '
+                      'ProduceVal::visit_array_pop_expr and its writer closure',
     ),
     'C07': dict(
         title='Split, join, cast and rounding',
@@ -45,9 +50,10 @@ PROPS = {
     ),
     'C08': dict(
         title='Input and output happen once each, in program order',
-        verus=['exec_io', 'exec_glue'], kani=[],
+        verus=['exec_io', 'exec_glue', 'exec_entry'], kani=[],
         technique=V + ': Environment::output/input against a ghost stream model (assumed writeln!/read_line contracts), '
-                      'visit_output/visit_input event traces (exactly one I/O event, errors returned)',
+                      'visit_output/visit_input event traces (exactly one I/O event, errors returned); exec_using / Environment::raw: the output stream of the '
+                      'environment IS the caller\'s stream (nothing interposed that could defer a write or swallow its error)',
     ),
     'C14': dict(
         title='Equality, ordering and logic obey their algebraic laws',
@@ -80,21 +86,22 @@ PROPS = {
     ),
     'C01': dict(
         title='Lexing and parsing are total',
-        verus=['lexer', 'tables', 'parser_core', 'parser_stmts', 'parser_exprs', 'parser_poetic', 'parser_names', 'parser_primary'], kani=['c01_'],
+        verus=['lexer', 'tables', 'parser_core', 'parser_stmts', 'parser_exprs', 'parser_poetic', 'parser_names', 'parser_primary', 'lexer_chars', 'parser_caps', 'parser_display'], kani=['c01_'],
         technique=V + ' — PARTIAL: lexer: slicing preconditions (valid char-boundary slice = no out-of-bounds read in debug or release), '
                       'u32 column / line arithmetic, the token loop match_loop (every branch ends on a boundary at or after the cursor, '
                       'the loop terminates, None only at the end of the buffer), scan_delimited, tokenize_word (non-empty stem); parser: '
                       'every get_*_operator(..).unwrap() token list proved total, token primitives, statement dispatch, statement / '
                       'expression / name / poetic-literal parsers over an abstract token stream: every consume() / unwrap() / '
                       'unchecked_unwrap() / unreachable_unchecked() site in them is an obligation, the block, program, list and operator '
-                      'loops terminate (decreases: tokens left). Inputs assumed shorter than u32::MAX bytes',
-        level_note='partial: CommentSkippingLexer::next, find_word_start / find_next_index / substr / advance_to (assumed contracts), '
-                   'primary expressions, array subscripts, common / capitalised identifiers (match_and_consume_while with FnMut closures), '
-                   'poetic strings, Display for ParseError and stack depth are NOT under contract (DESIGN.md §10.5)',
+                      'loops terminate (decreases: tokens left); capitalised identifiers incl. match_and_consume_while instantiated at their closures and both unchecked helpers; '
+                      'poetic strings (both unwraps); Display for Token / TokenType / ParseErrorLocation and expected_id_description (total on what check_mutation_args puts into the error). '
+                      'Inputs assumed shorter than u32::MAX bytes',
+        level_note='partial: substr / advance_to / get_index_of (pointer arithmetic) are assumed contracts; find_word_start / find_next_index are under contract over an abstract CharIndices '
+                   '(unit lexer_chars) but the lexer unit still uses their stated contracts; Display for ParseError (format! macros) and stack depth are NOT under contract (DESIGN.md §10.5)',
     ),
     'C02': dict(
         title='Every spelling of a program parses to the same syntax tree',
-        verus=['tables', 'parser_stmts', 'parser_core', 'parser_exprs', 'parser_poetic', 'parser_names', 'parser_primary', 'lexer'], kani=[],
+        verus=['tables', 'parser_stmts', 'parser_core', 'parser_exprs', 'parser_poetic', 'parser_names', 'parser_primary', 'lexer', 'lexer_chars', 'parser_caps'], kani=[],
         technique=V + ' — PARTIAL: get_unary/binary/mutation_operator, get_rounding_direction, is_literal_word, Block::new '
                       'against reference tables; statement level of the grammar: the dispatch table (starting token -> statement '
                       'kind) and each statement parser against the sequence of sub-parser calls, required and optional words and '
@@ -102,15 +109,16 @@ PROPS = {
                       'expression grammar: the precedence ladder logical < comparison < term < factor < unary (operator set and '
                       'next level of each level), left-associative fold, is-forms and their required words, comma lists and the '
                       'no-nested-lists flag (next level defunctionalised); names: order of the name kinds, pronouns, dispatch of statements that '
-                      'start with a name, function definitions / calls, parameter and argument separators. Aliases, literals, '
-                      'capitalised / common name scanning and comments are not decided',
+                      'start with a name, function definitions / calls, parameter and argument separators; what separates tokens: is_ignorable_whitespace = ANY Unicode whitespace but a line feed, '
+                      'is_ignorable_punctuation, is_word, find_word_start skips exactly ignorable whitespace; proper nouns = the longest run of capitalised words, spelled as written. '
+                      'The KEYWORDS alias table content and comments are not decided',
         level_note='partial: KEYWORDS alias table, primary expressions, identifier classes, comment skipping and '
                    'statements starting with a word are not under contract (DESIGN.md §5 C02)',
     ),
     'C09': dict(
         title='Running any parseable program never crashes the interpreter',
         verus=['val_ops', 'val_arrays', 'val_mut', 'fold', 'produce', 'exec_flow', 'exec_glue', 'exec_io', 'env', 'call', 'folder',
-               'linter', 'boring', 'visit_runner', 'poetic', 'sym_table'],
+               'linter', 'boring', 'visit_runner', 'poetic', 'sym_table', 'write_val', 'val_display', 'exec_entry'],
         kani=['c09_'],
         panic_site_files=['src/exec/write_val.rs', 'src/exec/val.rs', 'src/exec/produce_val.rs', 'src/exec/exec_stmt.rs',
                           'src/exec/sym_table.rs', 'src/exec/environment.rs', 'src/frontend/ast.rs', 'src/exec/display.rs',
@@ -136,30 +144,33 @@ PROPS = {
     ),
     'C12': dict(
         title='Tokens carry their exact spelling and true source position',
-        verus=['lexer'], kani=['c12_'],
+        verus=['lexer', 'lexer_chars', 'source_range'], kani=['c12_'],
         technique=K + ' (SourceRange / SourceLocation algebra, all u32) + ' + V + ' — PARTIAL: every token constructor (spelling = '
                       'buf[start..end], range = that span on the current line; multi-line comments / strings end on the line the text ends '
                       'on; suffix tokens after words, numbers, strings and comments; error tokens), tokenize_word (stem and staged suffix '
                       'spelled and positioned exactly), and the token loop: each token starts on the line the lexer stood on, at a column '
                       'between the old and the new cursor, the line counter follows the newlines of the token, a new line start never lies '
-                      'beyond the cursor. That what lies BETWEEN two tokens is ignorable (find_word_start) is assumed, not proved',
+                      'beyond the cursor; what is skipped between tokens (unit lexer_chars: find_word_start over an abstract CharIndices skips ignorable whitespace only, the two ignorable-character classes, '
+                      'find_next_index / find_next_word_end / next_char do not move the cursor); SourceRange::new / normalized / concat / to / line (unit source_range: start <= end, the mutual recursion terminates, '
+                      'a concatenation in source order starts where the first range starts)',
         level_note='partial: see DESIGN.md §10.3b; char_indices is a ghost cursor, str functions are assumed',
     ),
     'C13': dict(
         title='Syntax errors are rejected and attributed to the line they occur on',
-        verus=['parser_core', 'parser_stmts', 'parser_exprs', 'parser_names', 'parser_primary', 'lexer'], kani=[],
+        verus=['parser_core', 'parser_stmts', 'parser_exprs', 'parser_names', 'parser_primary', 'lexer', 'parser_display', 'parser_caps', 'source_range'], kani=[],
         technique=V + ' — PARTIAL: over an abstract token stream (remaining tokens as a sequence): expect_token / expect_token_or_end / '
                       'expect_any / expect_eol consume exactly what they accept and otherwise return the error located at the '
                       'offending token (or the current line at end of input: new_parse_error); every statement in a block is followed '
                       'by an end of statement; the program loop returns Ok only with no token left; an unknown statement start is an '
                       'error at that token; every statement parser demands its required words and operands and returns the first '
-                      'error; error tokens of the lexer span exactly the bad word. Sub-parsers for expressions and names abstract',
-        level_note='partial: expression / identifier / poetic-literal / function parsers, Display for ParseError(Location) and the '
-                   'lexer line counter across match_loop are not under contract (DESIGN.md §5 C13)',
+                      'error; error tokens of the lexer span exactly the bad word; the line PRINTED for an error is the line its token starts on (Display for ParseErrorLocation, SourceRange::start). '
+                      'Sub-parsers for expressions and names abstract',
+        level_note='partial: Display for ParseError (format! macros; only its location / token parts are under contract) and the '
+                   'composition of the units over whole programs are not decided (DESIGN.md §5 C13)',
     ),
     'C10': dict(
         title='Same program and input give the same output, result and messages every time',
-        verus=['val_arrays', 'val_mut', 'sym_table', 'linter'], kani=[],
+        verus=['val_arrays', 'val_mut', 'sym_table', 'linter', 'val_display'], kani=[],
         technique=V + ' — PARTIAL (the per-function ingredients): every function that walks the HashMap part of an array returns a '
                       'function of the array CONTENT: Array::val_iter = numeric part in order, then the dictionary values in KEY order '
                       '(`HashMap::values()` is specified as "no order promised", so the contract fails on it), Val::join is a function of '
@@ -167,20 +178,21 @@ PROPS = {
                       'tables are only ever addressed by key (the abstract map type has no iteration); lint diagnostics are sorted by line '
                       'with the STABLE sort (read off the method name). The property itself relates two executions (different hash seeds, '
                       'processes): that is not stated by any contract and not decided',
-        level_note='partial: Display for Array / Val (sorts formatted entries: fmt code), error rendering, the linter passes\' own '
+        level_note='partial: Display for Array (sorts formatted entries: a write! over an itertools chain; Display for Val / DictKeyRef are under contract: a function of the value alone), error rendering, the linter passes\' own '
                    'iteration and process-level effects are not under contract (DESIGN.md §10.5)',
     ),
     'C15': dict(
         title='Renaming variables and re-casing names or keywords never changes behaviour',
-        verus=['sym_table', 'env', 'parser_names', 'lexer'], kani=[],
+        verus=['sym_table', 'env', 'parser_names', 'lexer', 'sym_lower', 'parser_caps'], kani=[],
         technique=V + ' — PARTIAL (the per-call ingredient only): names are compared without regard to letter case on EVERY symbol-table '
                       'path — lookup, mutable lookup and insertion all address the entry under the case-folded key (generic HashMap impl '
                       'and the BTreeMap impl for proper names), one map per kind of name and the kind of the name alone picks the map, '
                       'for all three kinds in variable, parameter and function position (SymTable / Environment functions); keywords are looked up '
-                      'under the lower-cased word (match_keyword, also for a stem after its suffix was stripped: find_word_type). The property '
+                      'under the lower-cased word (match_keyword, also for a stem after its suffix was stripped: find_word_type); the three ToLowercase impls replace EVERY part of a name by its lower-casing '
+                      '(Unicode `lower` uninterpreted, string iterator idioms as shims) and proper nouns keep their words as written (parse_capitalized_identifier). The property '
                       'itself is a relation between the runs of TWO programs (original and renamed / re-cased): no function contract can '
                       'state it, and it is not decided',
-        level_note='partial: to_lowercase itself (Unicode content, idempotence, injectivity on distinct spellings) is uninterpreted; '
+        level_note='partial: char::to_lowercase (Unicode content, idempotence, injectivity on distinct spellings) is uninterpreted; '
                    'match_keyword case folding, the parser name functions (parse_variable_name, parse_function, parse_function_call) and '
                    'the invariance of whole runs under renaming are NOT decided (DESIGN.md §10.5)',
     ),
